@@ -23,6 +23,8 @@ package main
 //	op "mech": config.NewConfiguration followed by mechanisms.NewMechanismFactory (config_mech.go): is the mechanism
 //	           catalogue usable, and which option names does the failing stage refuse by name
 //
+// A case may carry "refs": {NAME: contents} - variables of the process the file of the case may refer to (`${NAME}`).
+//
 // A case may carry "prefix": the text handed to WithEnvPrefix / NewConfiguration instead of the private prefix (lower or
 // mixed case, padded with blanks, empty); its variables are then set under their FULL names (foreign ones, which do not
 // start with the prefix, among them); "clean_env": the process environment is emptied for the case (empty prefix: the
@@ -361,9 +363,11 @@ func c20LoaderReads(text string, fromFile bool) (out any) {
 func c20Readings(c map[string]any) (any, error) {
 	res := []any{}
 
-	for k, v := range c20SubstEnv {
-		os.Setenv(k, v)
-		defer os.Unsetenv(k)
+	if _, own := c["refs"]; !own {
+		for k, v := range c20SubstEnv {
+			os.Setenv(k, v)
+			defer os.Unsetenv(k)
+		}
 	}
 
 	for _, raw := range getStrs(c, "raw") {
@@ -590,9 +594,36 @@ func c20LoadOnce(c map[string]any, file string) (out any) {
 	return res
 }
 
+// c20SetRefs: "refs" of a case = variables of the process the FILE may refer to (`password: "${VERIFC20SUB_R3}"`); their
+// names do not start with any prefix of the configuration variables, so they define no property themselves. Set for
+// the duration of the case.
+func c20SetRefs(c map[string]any) func() {
+	refs, ok := c["refs"].(map[string]any)
+	if !ok {
+		return func() {}
+	}
+
+	names := []string{}
+
+	for k, v := range refs {
+		if text, isStr := v.(string); isStr {
+			os.Setenv(k, text)
+
+			names = append(names, k)
+		}
+	}
+
+	return func() {
+		for _, k := range names {
+			os.Unsetenv(k)
+		}
+	}
+}
+
 func runConfig(c map[string]any) (any, error) {
 	c20ClearEnv()
 	defer c20ClearEnv()
+	defer c20SetRefs(c)()
 
 	switch getStr(c, "op") {
 	case "history":
